@@ -27,7 +27,9 @@ MANIFEST = dict(
          "buffer pointer (not through the strides) must be freshly allocated and contiguous on every path from the public entry "
          "points (layout provenance over the wrapper methods and instance cells); (4) inclusive min/max filter on a stable argsort, "
          "decided per path and per given/absent limit, and for every value a given limit can have (value tests such as `min or d` / "
-         "`if min:` are split: zero is falsy); (5) bin count / bin size derivations and pass-through of the public wrapper.  The count "
+         "`if min:` are split: zero is falsy); every value that becomes the sort index is a stable argsort or a shortcut (positions "
+         "0..n-1 / n-1..0) whose branch condition makes it equal to one (reversed positions need strictly decreasing data); what reaches "
+         "the engine in one call does not read an attribute in which an earlier call left a value derived from its limits; (5) bin count / bin size derivations and pass-through of the public wrapper.  The count "
          "conditions of (2) are also checked on the C engine's own effects (every counted datum is reached through the sort index, "
          "which carries the min/max filter, with and without reverse indices).",
     note="Not decided: counts for particular data, floating-point rounding at bin edges. Assumes LP64 (argsort/arange give int64). "
@@ -2111,6 +2113,7 @@ def abi(chk, repo, cfn):
     srt = [x for x in walk_no_nested(si.node) if isinstance(x, ast.Call) and call_name(x) == "argsort"]
     ok = len(srt) == 1 and _stable_argsort(srt[0])
     chk.ob("R05.4", "Binner._get_sort_index::stable-argsort", ok, si.where(), "the sort index is a stable argsort of the data (ties keep original order)")
+    sort_index_values(chk, repo, si)
     # the two callers of _do_hist pass float64 data and an int64 sort index
     engine_callers(chk, repo, dh)
 
@@ -2744,6 +2747,186 @@ def _searchsorted(e, s):
     return (args[0], side) if side in ("left", "right") else None
 
 
+# ---- every value that becomes the sort index is the stable ascending order ---------------------------------
+# The reverse-index slices list the data "ordered by value with ties in original order": the sort index must be that
+# order on every path that produces it.  A stable argsort of the data is that order by definition.  A path may also
+# produce it without sorting, but only under a condition on the data that makes the shortcut equal to the stable order:
+# the identity 0..n-1 when the data are non-decreasing (ties then already stand in original order), the reversed identity
+# n-1..0 only when the data are *strictly* decreasing -- under a non-strict guard equal values come out in reversed
+# original order.  The rule looks at the value that reaches the cell on each path and at the facts the path's branch
+# conditions establish about successive data; how the guard is spelled (np.diff, shifted slices, all / not any) does not
+# matter.
+_MONO_OPS = {ast.GtE: "inc", ast.Gt: "sinc", ast.LtE: "dec", ast.Lt: "sdec"}
+_MONO_MIRROR = {"inc": "dec", "sinc": "sdec", "dec": "inc", "sdec": "sinc"}        # the same comparison with its operands exchanged
+_MONO_NEG = {"inc": "sdec", "sinc": "dec", "dec": "sinc", "sdec": "inc"}           # `not (a >= b)` is `a < b` (finite data)
+
+
+def _data_size(e):
+    return norm(e) in ("self.x.size", "len(self.x)", "self.x.shape[0]", "np.size(self.x)", "np.diff(self.x).size + 1", "len(np.diff(self.x)) + 1")
+
+
+def _no_dtype(e):
+    """the call without a dtype keyword (it does not change which positions are listed)"""
+    if isinstance(e, ast.Call) and any(k.arg == "dtype" for k in e.keywords):
+        e = copy.copy(e)
+        e.keywords = [k for k in e.keywords if k.arg != "dtype"]
+    return e
+
+
+def _position_order(e):
+    """'id' when e lists the positions 0..n-1 of the data in increasing order, 'rev' for n-1..0, else None"""
+    e = _no_dtype(e)
+    if isinstance(e, ast.Call) and call_name(e) == "astype" and isinstance(e.func, ast.Attribute) and norm(e.func.value) not in _NP:
+        return _position_order(e.func.value)
+    for p in ("np.arange(_N)", "np.arange(0, _N)", "np.arange(0, _N, 1)", "numpy.arange(_N)", "numpy.arange(0, _N)", "numpy.arange(0, _N, 1)"):
+        b = pat.match(p, e, commutative=False)
+        if b is not None and _data_size(b["_N"]):
+            return "id"
+    for p in ("np.arange(_N - 1, -1, -1)", "numpy.arange(_N - 1, -1, -1)"):
+        b = pat.match(p, e, commutative=False)
+        if b is not None and _data_size(b["_N"]):
+            return "rev"
+    for p in ("_S[::-1]", "np.flip(_S)", "np.flipud(_S)", "np.flip(_S, 0)", "np.flip(_S, axis=0)", "numpy.flip(_S)"):
+        b = pat.match(p, e, commutative=False)
+        if b is not None:
+            o = _position_order(b["_S"])
+            return {"id": "rev", "rev": "id"}.get(o)
+    return None
+
+
+def _successive(e):
+    """+1 when e is the vector x[i+1] - x[i] of successive differences of the data, -1 for x[i] - x[i+1], else None"""
+    if norm(e) in ("np.diff(self.x)", "numpy.diff(self.x)", "np.ediff1d(self.x)", "np.diff(self.x, 1)", "np.diff(self.x, n=1)"):
+        return 1
+    b = pat.match("_A - _B", e, commutative=False)
+    if b is not None:
+        a, c = norm(b["_A"]), norm(b["_B"])
+        if (a, c) == ("self.x[1:]", "self.x[:-1]"):
+            return 1
+        if (a, c) == ("self.x[:-1]", "self.x[1:]"):
+            return -1
+    return None
+
+
+def _is_zero(e):
+    v = const_value(e)
+    return isinstance(v, (int, float)) and not isinstance(v, bool) and v == 0
+
+
+def _pairwise(c):
+    """what an elementwise comparison says about every pair of successive data when it holds for all of them:
+    'inc' x[i] <= x[i+1], 'sinc' <, 'dec' >=, 'sdec' >; None when c is not such a comparison"""
+    if not (isinstance(c, ast.Compare) and len(c.ops) == 1 and type(c.ops[0]) in _MONO_OPS):
+        return None
+    kind = _MONO_OPS[type(c.ops[0])]
+    a, b = c.left, c.comparators[0]
+    if _is_zero(b) and _successive(a) is not None:
+        return kind if _successive(a) > 0 else _MONO_MIRROR[kind]
+    if _is_zero(a) and _successive(b) is not None:
+        return _MONO_MIRROR[kind] if _successive(b) > 0 else kind
+    ta, tb = norm(a), norm(b)
+    if (ta, tb) == ("self.x[1:]", "self.x[:-1]"):
+        return kind
+    if (ta, tb) == ("self.x[:-1]", "self.x[1:]"):
+        return _MONO_MIRROR[kind]
+    return None
+
+
+def _order_fact(t, truth):
+    """the fact about the order of the data that a branch condition with the given outcome establishes, else None"""
+    while isinstance(t, ast.UnaryOp) and isinstance(t.op, ast.Not):
+        t, truth = t.operand, not truth
+    if isinstance(t, ast.Call) and call_name(t) == "bool" and len(t.args) == 1 and not t.keywords:
+        return _order_fact(t.args[0], truth)
+    if not (isinstance(t, ast.Call) and call_name(t) in ("all", "any", "alltrue", "sometrue") and not t.keywords):
+        return None
+    if isinstance(t.func, ast.Attribute) and norm(t.func.value) not in _NP:
+        if t.args:
+            return None
+        c = t.func.value
+    elif len(t.args) == 1:
+        c = t.args[0]
+    else:
+        return None
+    k = _pairwise(c)
+    if k is None:
+        return None
+    if call_name(t) in ("all", "alltrue"):
+        return k if truth else None            # "not all" only says that one pair is out of order
+    return _MONO_NEG[k] if not truth else None
+
+
+def sort_index_values(chk, repo, si):
+    """R05.4 Binner._get_sort_index::every-path-gives-the-stable-order (see the section comment)"""
+    cell = "self.sort_index"
+    paths = _paths(repo, si)
+    vs, shown, why = [], set(), set()
+    for st in paths if paths is not None else [None]:
+        if st is None:
+            vs.append(None)
+            continue
+        if st.outcome == "raise":
+            continue
+        v = st.env.get(cell)
+        if v is None:
+            # the cell is left alone: a cached index of the same data, made by one of the other paths
+            cached = st.known.get("%s is None" % cell) is False or st.known.get("%s is not None" % cell) is True
+            vs.append(True if cached else None)
+            continue
+        shown.add(norm(v))
+        facts = {f for f in (_order_fact(t, truth) for t, truth in st.conds) if f}
+        guard = " and ".join("%s`%s`" % ("" if truth else "not ", norm(t)) for t, truth in st.conds if _order_fact(t, truth)) or "no condition on the order of the data"
+        if _stable_argsort(v):
+            vs.append(True)
+            continue
+        if isinstance(v, ast.Call) and call_name(v) == "argsort" and (norm(v.func.value) == "self.x" or (norm(v.func.value) in _NP and v.args and norm(v.args[0]) == "self.x")):
+            k = kwarg(v, "kind")
+            if k is None or (isinstance(k, ast.Constant) and k.value not in ("stable", "mergesort")):
+                vs.append(False)
+                why.add("`%s` is not a stable sort: equal values come out in an unspecified order" % norm(v))
+            else:
+                vs.append(None)
+            continue
+        o = _position_order(v)
+        if o == "id":
+            # 0..n-1 is the stable order exactly when no datum is smaller than its predecessor
+            if facts & {"inc", "sinc"}:
+                vs.append(True)
+            elif facts & {"dec", "sdec"}:
+                vs.append(False)
+                why.add("`%s` (the data in their original order) is used as the sort index under %s, which does not make the data non-decreasing" % (norm(v), guard))
+            else:
+                vs.append(None)
+        elif o == "rev":
+            # n-1..0 lists equal values in reversed original order: it is the stable order only for strictly decreasing data
+            if "sdec" in facts:
+                vs.append(True)
+            elif facts:
+                vs.append(False)
+                why.add("`%s` (the data in reversed original order) is used as the sort index under %s: the guard admits equal values, which are then listed in reversed instead of original order"
+                        % (norm(v), guard))
+            else:
+                vs.append(None)
+        else:
+            vs.append(None)
+    v = _verdict(vs)
+    chk.ob("R05.4", "Binner._get_sort_index::every-path-gives-the-stable-order", v, si.where(),
+           "every value that becomes the sort index is the ascending order of the data with equal values in original order: a stable argsort, or a shortcut "
+           "whose guard makes it equal to one%s (%s)" % (" -- " + "; ".join(sorted(why)) if why and v is False else "", sorted(shown)))
+
+
+def _mentions(e, names):
+    """the expression reads one of the names as a value (a callee of that name is the builtin, not the parameter)"""
+    callees = {id(x.func) for x in ast.walk(e) if isinstance(x, ast.Call)}
+    return any(isinstance(x, ast.Name) and x.id in names and id(x) not in callees for x in ast.walk(e))
+
+
+def _stale_reads(e, cells):
+    """the cells of `cells` whose value from before the call is read by e (the path executor has replaced every read of a cell that
+    was assigned earlier on the path: what is left reads the state the object was in when the call began)"""
+    return sorted({norm(x) for x in ast.walk(e) if isinstance(x, ast.Attribute) and norm(x) in cells})
+
+
 def limits(chk, repo):
     fi = repo.func(ST + "Binner._get_minmax_and_indices")
     chk.analysed_unit(fi.qualname)
@@ -2751,7 +2934,23 @@ def limits(chk, repo):
     lo_p, hi_p = ("min", "max") if "min" in fi.params and "max" in fi.params else tuple(fi.params[1:3])
     v_incl, v_filt, v_def, v_org, v_appl = [], [], [], [], []
     shown = set()
-    why = {"org": set(), "incl": set(), "appl": set()}     # what exactly contradicts a rule (named constructs), for the messages
+    why = {"org": set(), "incl": set(), "appl": set(), "hist": set()}     # what exactly contradicts a rule (named constructs), for the messages
+    # instance attributes in which some path of this method (a path that raises included: the object survives) leaves a value
+    # that depends on the limits of the call: a later call that reads such a cell before assigning it sees the limits of the
+    # earlier call.  Not counted when another method (other than the constructor) assigns the cell as well: it may reset it.
+    carried = {}
+    for st in paths or []:
+        for k, v in st.env.items():
+            if k.startswith("self.") and "[" not in k and "(" not in k and _mentions(v, (lo_p, hi_p)):
+                carried.setdefault(k, norm(v))
+    reset = set()
+    for g in repo.funcs.values():
+        if g.module is fi.module and g.cls == fi.cls and g.node is not fi.node and g.name != "__init__":
+            for x in ast.walk(g.node):
+                tg = x.targets if isinstance(x, ast.Assign) else [x.target] if isinstance(x, (ast.AugAssign, ast.AnnAssign)) else []
+                for t in tg:
+                    reset |= {norm(tt) for tt in rules._flat_targets(t) if isinstance(tt, ast.Attribute)}
+    v_hist = [None] if paths is None else []
     for lo in (None, NOTNONE):
         for hi in (None, NOTNONE):
             flags = {lo_p: lo, hi_p: hi}
@@ -2761,6 +2960,22 @@ def limits(chk, repo):
                     v.append(None)
             for st in sts:
                 env = st.env
+                # what reaches the engine depends on this call's limits and on the data only
+                for cell in ("self.dmin", "self.dmax", "self['wsort']"):
+                    val = _simp(env.get(cell), flags)
+                    if val is None:
+                        if cell not in carried:
+                            continue                  # never assigned here: the other rules say "not recognised"
+                        val = ast.parse(cell, mode="eval").body
+                    for val, cond in _value_cases(val, flags):
+                        stale = _stale_reads(val, carried)
+                        if not stale:
+                            v_hist.append(True)
+                            continue
+                        v_hist.append(None if set(stale) & reset else False)
+                        given = ", ".join("%s %s" % (p, "given" if g is not None else "absent") for p, g in ((lo_p, lo), (hi_p, hi)))
+                        why["hist"].add("with %s%s, %s is `%s`, which reads what an earlier call left in %s" % (given, " and %s" % cond if cond else "", cell, norm(val),
+                                        ", ".join("%s (`%s = %s` on another path)" % (c, c, carried[c]) for c in stale)))
                 # the binning origin / range handed to the engine
                 for given, cell, par, ext, vv in ((lo, "self.dmin", lo_p, "min", None), (hi, "self.dmax", hi_p, "max", None)):
                     val = _simp(env.get(cell), flags)
@@ -2862,6 +3077,8 @@ def limits(chk, repo):
     chk.ob("R05.4", "limits::defaults-are-data-extremes", _verdict(v_def), wh, "absent limits default to the smallest / largest datum")
     chk.ob("R05.4", "limits::engine-min-is-lower-limit", _verdict(v_org), wh, "the binning origin / range is the given limit, for every value the limit can have (zero included)" + because("org", _verdict(v_org)))
     chk.ob("R05.4", "limits::filter-applied-when-a-limit-is-given", _verdict(v_appl), wh, "the filter runs whenever min or max is given" + because("appl", _verdict(v_appl)))
+    chk.ob("R05.4", "limits::independent-of-earlier-calls", _verdict(v_hist), wh, "the binning origin / range and the filtered sort index of a call are determined by that call's "
+           "limits and the data: no path reads an attribute in which an earlier call on the same object left a value derived from its limits" + because("hist", _verdict(v_hist)))
 
 
 # ---- R05.5 ------------------------------------------------------------------------
